@@ -1,7 +1,8 @@
 """C15 - depth, tick and cancellation limits (structural clauses)."""
 import re
 
-from kern import (CallGraph, bool_call_edges, branch_edges, calls_by_name, callers, origins, outcome_edges, top_fn)
+from kern import (CallGraph, bool_call_edges, branch_edges, calls_by_name, callers, origins, outcome_edges, short_fn,
+                  top_fn)
 
 DESCRIPTION = ("C15 clauses decided: R1 every Starlark frame is counted (raw invocations only inside the closure handed "
                "to with_call_stack; push fails before writing when the stack is full); R2 every call-family handler and "
@@ -143,7 +144,7 @@ def r1_frames(ctx, F):
                 break
         short = c.name.split("::")[-1]
         if under:
-            ctx.ok("C15.R1", "raw-invoke:%s:%s" % (top_fn(F, f).qpath, short),
+            ctx.ok("C15.R1", "raw-invoke:%s:%s" % (short_fn(top_fn(F, f).qpath), short),
                    "raw invocation inside the closure handed to with_call_stack (frame counted)")
             continue
         t = top_fn(F, f)
@@ -151,7 +152,7 @@ def r1_frames(ctx, F):
         # callee-side: the function is itself an impl of StarlarkValue::invoke / invoke_impl (runs under caller's frame)
         callee_side = bool(re.search(r"as values::traits::StarlarkValue<'v>>::invoke$|DefGen::<V>::invoke(_impl|_with_args)?$",
                                      t.qpath))
-        ctx.check(bool(fw) or callee_side, "C15.R1", "raw-invoke:%s:%s" % (t.qpath, short),
+        ctx.check(bool(fw) or callee_side, "C15.R1", "raw-invoke:%s:%s" % (short_fn(t.qpath), short),
                   "callee-side forwarder (runs inside the frame pushed by its caller)",
                   "raw function invocation `%s` outside with_call_stack: this call path does not count a frame, so "
                   "unbounded recursion through it overflows the native stack instead of failing with a "
@@ -239,5 +240,9 @@ def r3_limits(ctx, F):
 def run(ctx):
     F = ctx.facts("core")
     r1_frames(ctx, F)
+    # a leaked or double-popped frame corrupts the depth accounting: the pairing clauses of C07.R1 are part of
+    # "every frame is counted"
+    from rules.C07 import r1_pairing
+    r1_pairing(ctx, F, rule="C15.R1")
     r2_ticks(ctx, F)
     r3_limits(ctx, F)
